@@ -71,6 +71,22 @@ def run_task(task):
     res = TaskResult()
     kind = task["kind"]
     try:
+        if kind == "opt":           # same arithmetic in fresh `python -O` / `-OO` interpreters
+            from vlib import optrun
+            ns = sorted(set(list(range(0, 600)) + [B ** 2 - 1, B ** 2, B ** 3 - 1, B ** 3, B ** 4 - 1]
+                            + [i * 7919 % (B ** 4) for i in range(1, 1500)]))
+            bss = [bytes([a, b, c_, d]).hex() for a in (0, 1, 0x80, 0xFD, 0xFE, 0xFF) for b in (0, 2, 0xFE, 0xFF)
+                   for c_ in (1, 0xFE) for d in (0, 3, 0xFE)] + ["", "05", "fe01", "0102030405"]
+            jobs = [{"fn": "encode_number", "arg": n} for n in ns] + [{"fn": "decode_number", "arg": h} for h in bss]
+            for flag in ("-O", "-OO"):
+                got = optrun.run(jobs, flag)
+                for job, g in zip(jobs, got):
+                    exp = refcodec.ref_encode(job["arg"]).hex() if job["fn"] == "encode_number" \
+                        else refcodec.ref_decode(bytes.fromhex(job["arg"]))
+                    if g != exp:
+                        raise Violation("holds_under_optimized_interpreter", {"kind": "opt", "job": job, "flag": flag}, exp, g)
+                res.extra["optimized_interpreter_calls"] = res.extra.get("optimized_interpreter_calls", 0) + len(jobs)
+            return res
         if kind == "enc3":          # d2 range, d3 = 0
             res.shards_total = 1
             for d2 in range(task["lo"], task["hi"]):
@@ -204,6 +220,7 @@ def plan(tier, seed):
     n = 40000 if tier == "quick" else 400000
     for w in range(8):
         tasks.append({"kind": "hyp", "n": n // 8, "seed": seed * 1000 + w})
+    tasks.append({"kind": "opt"})
     if tier == "thorough":
         for d3 in range(1, B):
             tasks.append({"kind": "enc4", "d3": d3})
@@ -213,6 +230,14 @@ def plan(tier, seed):
 def replay(case):
     c = loader.core()
     enc_f, dec_f = c.data.encode_number, c.data.decode_number
+    if case["kind"] == "opt":
+        from vlib import optrun
+        job = case["job"]
+        g = optrun.run([job], case["flag"])[0]
+        exp = refcodec.ref_encode(job["arg"]).hex() if job["fn"] == "encode_number" else refcodec.ref_decode(bytes.fromhex(job["arg"]))
+        if g != exp:
+            raise Violation("holds_under_optimized_interpreter", case, exp, g)
+        return
     if case["kind"] == "seq":
         for m in case["ns"][:-1]:
             enc_f(m)
